@@ -13,6 +13,8 @@ import json
 import random
 from fractions import Fraction
 
+import numpy as np
+
 from .. import core, gamma
 from .. import scoresdrv as sd
 from . import c02
@@ -65,9 +67,12 @@ def run(ctx: core.Ctx):
         ev = sd.make_ev(evs, ids, base + j, g)
         s = sd.new_event(ev, o, g)
         if s is not None:
-            for m in sd.METRICS:
+            for k, m in enumerate(sd.METRICS):
                 if sd.rel_scores(o, m):
-                    sd.threshold_event(ev, s, o, m, [], g, extra_targets=EXTREME)
+                    # the extreme targets are exact in every float format: also pass them as float32 /
+                    # float16 arrays and as a list (the rescaling must not lose the end of the scale)
+                    form = [None, lambda r: r.astype(np.float32), lambda r: r.astype(np.float16), list][(j + k) % 4]
+                    sd.threshold_event(ev, s, o, m, [], g, extra_targets=EXTREME, form=form)
         events += evs
         ctx.nontrivial.add(json.dumps(o, sort_keys=True))
     allcases = cases + wide
